@@ -19,6 +19,11 @@ CHECKS = {
   text="Model checking of an explicit specification of automaton_accepted (declarative meaning Ref, the library's recursion Rec transcribed, memo-sharing calls as a state machine) with TLC, bound to the code by replaying every emitted call transition with a real shared `precomputed` dictionary (result words, matrices entry by entry against exact integer images, and every memo entry) and by executing every option combination on every deterministic automaton with <=3 states.",
   note="Universe: automata <=3 states over {a,B}, lengths <=3 (4 thorough), Sanov generators; memo shared only among calls with equal (direction, maxlen, with_words); quick tier samples 500 of the 3-state automata.",
   design="4/C06"),
+ "C01": dict(
+  technique="TLA+ specs HypPoints.tla (conversion machine over exact rational coordinates of integer points, invariants PointFixed/InModel) and HypMetric.tla (exact cosh^2, reversed Cauchy-Schwarz, agreement of the five closed-form metrics, integer triangle inequality on all triples) checked by TLC; every emitted conversion transition and every emitted point pair replayed through Point(...).coords / Point.distance",
+  text="Model checking of the exact (integer/rational) reference semantics of the five coordinate models and of the metric with TLC, bound to the code by replaying every labelled conversion transition (point x ordered pair of models, as unit objects and as composite arrays of several shapes, plus chains of conversions) and every ordered pair of points of the universe (distance against exact cosh^2, zero/NaN, symmetry, closed forms on the library's own coordinates, triangle inequality on library values).",
+  note="Bounded rational grid: primitive integer vectors, dimensions 1..4 (5 thorough), entries <= 13/9/5/3; conversions only where -<x,x> is a perfect square or 0; ideal points compared with sqrt-conditioning tolerance 2e-7; irrational points and points within 1e-6 of the boundary not covered.",
+  design="4/C01"),
 }
 
 NOT_YET = {
